@@ -12,7 +12,7 @@ from typing import Any
 from asphalt.core import CLIApplicationComponent, Component
 
 CURRENT: Any = None  # the harness of the run in progress
-NSLOTS = 12
+NSLOTS = 48
 
 
 def _make(i: int, has_prepare: bool, has_start: bool) -> type:
